@@ -23,9 +23,17 @@ __attribute__((used, visibility("default"))) const char *__ubsan_default_options
   return "print_stacktrace=1:halt_on_error=1:exitcode=77";
 }
 __attribute__((used, visibility("default"))) const char *__tsan_default_options() {
-  return "exitcode=78:halt_on_error=0:report_signal_unsafe=0:second_deadlock_stack=1:history_size=4";
+  return "exitcode=0:halt_on_error=0:report_signal_unsafe=0:second_deadlock_stack=1:history_size=4";
 }
 }
+
+#if defined(FLAVOUR_tsan)
+#define FLAVOUR_NAME "tsan"
+#elif defined(FLAVOUR_plain)
+#define FLAVOUR_NAME "plain"
+#else
+#define FLAVOUR_NAME "asan"
+#endif
 
 namespace sim {
 
@@ -301,17 +309,20 @@ static std::vector<RunResult> exec_many(Property &P, std::vector<J> const &plans
   return out;
 }
 
+static double g_shrink_total_budget = 150.0, g_shrink_spent = 0.0, g_shrink_group_budget = 40.0;
 static J shrink_plan(Property &P, J plan, std::string const &cls, int &execs) {
   double t0 = now_s();
   bool progress = true;
   const size_t width = 16;
-  while (progress && execs < 1500 && now_s() - t0 < 90) {
+  double limit = std::min(g_shrink_group_budget, std::max(0.0, g_shrink_total_budget - g_shrink_spent));
+  struct Spent { double t0; ~Spent() { g_shrink_spent += now_s() - t0; } } spent{t0};
+  while (progress && execs < 1500 && now_s() - t0 < limit) {
     progress = false;
     std::vector<J> cands;
     generic_candidates(plan, cands);
     if (P.shrink_more) P.shrink_more(plan, cands);
     for (size_t i = 0; i < cands.size() && !progress; i += width) {
-      if (execs >= 1500 || now_s() - t0 > 90) break;
+      if (execs >= 1500 || now_s() - t0 > limit) break;
       size_t cnt = std::min(width, cands.size() - i);
       std::vector<RunResult> rs = exec_many(P, cands, i, cnt, P.run_timeout_s);
       execs += (int)cnt;
@@ -541,6 +552,7 @@ static int report_violation(Property &P, uint64_t seed, J const &plan0, RunResul
   if (reported_fine.count(fine)) return 1;   // same finding already reported from another seed
   reported_fine.insert(fine);
   small["property"] = P.id;
+  small["flavour"] = FLAVOUR_NAME;
   small["violation"] = J::obj();
   small["violation"]["class"] = cls; small["violation"]["fine_signature"] = fin.fine(); small["violation"]["oracle"] = fin.oracle;
   small["violation"]["detail"] = fin.detail; small["violation"]["shrink_execs"] = execs;
@@ -553,6 +565,8 @@ static int report_violation(Property &P, uint64_t seed, J const &plan0, RunResul
   return 1;
 }
 
+static std::string g_evidence_name, g_merge_evidence;
+static double g_share = 1.0;
 static int cmd_check(Property &P, bool thorough, int jobs, long runs_override, double secs_override) {
   mkdirs();
   double t0 = now_s();
@@ -560,6 +574,8 @@ static int cmd_check(Property &P, bool thorough, int jobs, long runs_override, d
   if (const char *e = getenv("VERIF_SEED")) base_seed = strtoull(e, nullptr, 10);
   long runs = runs_override > 0 ? runs_override : (thorough ? P.thorough_runs : P.quick_runs);
   double secs = secs_override > 0 ? secs_override : (thorough ? P.thorough_secs : P.quick_secs);
+  runs = std::max(1L, (long)((double)runs * g_share)); secs *= g_share;
+  if (thorough) { g_shrink_total_budget = 900; g_shrink_group_budget = 120; }
   printf("cvsim check %s tier=%s seed=%llu runs<=%ld secs<=%.0f jobs=%d\n", P.id.c_str(), thorough ? "thorough" : "quick",
          (unsigned long long)base_seed, runs, secs, jobs);
   fflush(stdout);
@@ -672,7 +688,19 @@ static int cmd_check(Property &P, bool thorough, int jobs, long runs_override, d
   ev["assumptions"] = as;
   ev["wall_s"] = wall;
   ev["violations"] = n_viol;
-  write_file(g_root + "/evidence/" + P.id + ".json", ev.str(1) + "\n");
+  if (!g_merge_evidence.empty()) {
+    std::string txt; J other;
+    if (read_file(g_merge_evidence, txt) && J::parse(txt, other)) {
+      ev["coverage"]["companion_batch"] = other.at("coverage");
+      ev["coverage"]["companion_batch"]["wall_s"] = other.at("wall_s");
+      ev["coverage"]["companion_batch"]["violations"] = other.at("violations");
+      ev["coverage"]["evaluations"] = (long long)(B.evaluations + other.at("coverage").at("evaluations").as_int());
+      ev["violations"] = n_viol + (int)other.at("violations").as_int();
+      ev["wall_s"] = wall + other.at("wall_s").as_num();
+    }
+  }
+  ev["coverage"]["flavour"] = FLAVOUR_NAME;
+  write_file(g_root + "/evidence/" + (g_evidence_name.empty() ? P.id : g_evidence_name) + ".json", ev.str(1) + "\n");
 
   for (auto &kv : B.counters)
     if (kv.first.compare(0, 6, "probe.") == 0 && kv.second == 0 && thorough) printf("warning: probe %s stayed at zero\n", kv.first.c_str());
@@ -748,6 +776,9 @@ int harness_main(int argc, char **argv) {
     else if (a == "--jobs" && i + 1 < argc) jobs = atoi(argv[++i]);
     else if (a == "--runs" && i + 1 < argc) runs = atol(argv[++i]);
     else if (a == "--secs" && i + 1 < argc) secs = atof(argv[++i]);
+    else if (a == "--evidence-name" && i + 1 < argc) g_evidence_name = argv[++i];
+    else if (a == "--merge-evidence" && i + 1 < argc) g_merge_evidence = argv[++i];
+    else if (a == "--share" && i + 1 < argc) g_share = atof(argv[++i]);
   }
   if (cmd == "list") { for (auto &p : all_properties()) printf("%s %s\n", p.id.c_str(), p.level.c_str()); return 0; }
   if (cmd == "replay" && argc >= 3) {
